@@ -23,12 +23,20 @@ def genSafe (name : String) : Option Bool := lookup name SandboxGuards.natives
 def appDerivedTypes : List String :=
   if SandboxGuards.appDtorClearsSingleton then ["IcingaApplication"] else []      -- generated from application.cpp on every run
 
+/-- Does the body of this higher-order native test the callback's flag under `Sandboxed` first (generated from
+    array-script.cpp on every run; a native the translator did not find there counts as unchecked). -/
+def genCbCheck (n : String) : Bool :=
+  match SandboxGuards.callbackInvokers.find? (fun r => r.1 == n) with
+  | some r => r.2.2
+  | none => false
+
 /-- The model configured by the generated tables; native semantics, hidden-field table and templates
     are supplied by the caller. -/
 def genCfg (native : String → Option Native) (hidden : String → String → Bool) : Cfg :=
   { guard := genGuard, callCheck := SandboxGuards.callCheck, fieldCheck := SandboxGuards.fieldCheck,
     refGetSandboxed := SandboxGuards.refGetSandboxed, initDictOff := SandboxGuards.initDictOff,
     importSandboxed := SandboxGuards.importReadSandboxed,
+    cbCheck := genCbCheck,
     ctorEffect := fun t => appDerivedTypes.contains t,
     native := native, hidden := hidden }
 
